@@ -19,7 +19,7 @@ KIDS = {
     'obj': '{{{{a: () => v2}}}}', 'lit': '{{"s"}}', 'num': '{{1}}', 'mem': '{{v1.x}}', 'cond': '{{v1 ? v2 : v3}}',
     'eld': '<div v-show={{v1}}>hi</div>', 'elf': '<input v-foo={{v2}}/>', 'spcall': '{{...f1(v2)}}', 'spobj': '{{...[v1, v2]}}', 'spfn': '{{...(() => [v1])()}}', 'empty': '{{}}', 'cmt': '{{/* c */}}', 'spread': '{{...v3}}', 'el': '<b/>', 'elt': '<i>x</i>', 'frag': '<>y</>', 'comp': '<C1/>',
 }
-HOSTS = {'div': ('div', 'div'), 'Foo': ('Foo', 'Foo'), 'C1': ('C1', 'C1'), 'mem': ('v1.Foo', 'v1.Foo'), 'KeepAlive': ('KeepAlive', 'KeepAlive'),
+HOSTS = {'div': ('div', 'div'), 'Foo': ('Foo', 'Foo'), 'C1': ('C1', 'C1'), 'mem': ('v1.Foo', 'v1.Foo'), 'memtag': ('v1.button', 'v1.button'), 'memsvg': ('v2.svg', 'v2.svg'), 'memdeep': ('v1.ui.table', 'v1.ui.table'), 'KeepAlive': ('KeepAlive', 'KeepAlive'),
          'frag': ('', ''), 'cust': ('x-y', 'x-y'), 'Fragment': ('Fragment', 'Fragment')}
 VSLOTS = {'': '', 'id': ' v-slots={{s1}}', 'obj': ' v-slots={{{{foo: f1}}}}', 'call': ' v-slots={{f1()}}'}
 
@@ -105,7 +105,7 @@ def _shape(env, kids):
     return 'expr'
 
 
-COMP_HOSTS = ['Foo', 'C1', 'mem']
+COMP_HOSTS = ['Foo', 'C1', 'mem', 'memtag', 'memsvg', 'memdeep']       # a member expression is a component host whatever its last segment spells
 ELEM_HOSTS = ['div', 'frag', 'KeepAlive', 'cust']
 ONE = ['id', 'un', 'call', 'arrow', 'fn', 'obj', 'lit', 'mem', 'cond', 'hi', 'sp', 'nl', 'blank', 'T1', 'T2', 'empty', 'cmt', 'spread', 'spcall', 'spobj', 'spfn', 'el', 'elt', 'eld', 'elf', 'frag', 'comp', 'num']
 
@@ -144,7 +144,7 @@ def _adjacent_text(a, b):
 
 
 def jobs(tier):
-    js = kid_jobs(tier, COMP_HOSTS if tier != 'quick' else ['Foo', 'C1'], lambda h: ['', 'id', 'obj', 'call'] if h in ('Foo',) or tier != 'quick' else [''])
+    js = kid_jobs(tier, COMP_HOSTS if tier != 'quick' else ['Foo', 'C1', 'memtag'], lambda h: ['', 'id', 'obj', 'call'] if h in ('Foo',) or tier != 'quick' else [''])
     return [{'module': MOD, 'spec': s} for s in js]
 
 
